@@ -223,6 +223,88 @@ def sc_sequencing(B, iters):
     return o
 
 
+def sc_phase_observable(B, seed):
+    """real code only: the exact marginal likelihood of each phase's factor-analysis model (latent
+    factor integrated out, hand-over estimates fixed) over the phase's own E/M iterations, driven
+    through the real e_step_*/m_step_*/finalize_* methods"""
+    import numpy as np
+
+    gmm = B.mod("gmm")
+    famod = B.mod("factor_analysis")
+    rs = np.random.RandomState(seed)
+    C, D, rU, rV = 2, 2, 2, 2
+    CD = C * D
+    ubm = gmm.GMMMachine(C)
+    ubm.means = rs.normal(size=(C, D))
+    ubm.variances = rs.uniform(0.5, 2.0, (C, D))
+    ubm.weights = np.array([0.5, 0.5])
+    m = famod.JFAMachine(r_U=rU, r_V=rV, ubm=ubm, em_iterations=1)
+    labels = [0, 0, 1, 1, 1, 2, 2]
+    X = []
+    spk = rs.normal(scale=1.0, size=(3, C, D))
+    for lab in labels:
+        s = gmm.GMMStats(C, D)
+        s.n = rs.uniform(1.0, 8.0, C)
+        s.sum_px = s.n[:, None] * (ubm.means + spk[lab] + rs.normal(scale=0.5, size=(C, D)))
+        s.t = float(s.n.sum())
+        X.append(s)
+    K = 3
+    spc = [labels.count(k) for k in range(K)]
+    n_acc, f_acc = m.initialize(X, labels, K)
+    S, mean = ubm.variances.flatten(), ubm.means.flatten()
+
+    def quad(W, N, r):  # -1/2 log|I + W'S^-1 N W| + 1/2 b' P^-1 b,  b = W' S^-1 r
+        P = np.eye(W.shape[1]) + W.T @ (W * (N / S)[:, None])
+        b = W.T @ (r / S)
+        return -0.5 * np.linalg.slogdet(P)[1] + 0.5 * b @ np.linalg.solve(P, b)
+
+    def ll_v():
+        return sum(quad(m.V, np.repeat(n_acc[k], D), f_acc[k].flatten() - np.repeat(n_acc[k], D) * mean) for k in range(K))
+
+    def ll_u(y):
+        return sum(quad(m.U, np.repeat(X[h].n, D), X[h].sum_px.flatten() - np.repeat(X[h].n, D) * (mean + m.V @ y[labels[h]])) for h in range(len(X)))
+
+    def ll_d(y, x):
+        tot = 0.0
+        for k in range(K):
+            hs = [h for h in range(len(X)) if labels[h] == k]
+            N = np.repeat(n_acc[k], D)
+            r = f_acc[k].flatten() - N * (mean + m.V @ y[k])
+            for j, h in enumerate(hs):
+                r = r - np.repeat(X[h].n, D) * (m.U @ x[k][:, j])
+            d2 = 1.0 + m.D**2 * N / S
+            b = m.D / S * r
+            tot += np.sum(-0.5 * np.log(d2) + 0.5 * b**2 / d2)
+        return tot
+
+    o = Outcome()
+    lv = [ll_v()]
+    for it in range(4):
+        m.m_step_v([m.e_step_v(X, labels, spc, n_acc, f_acc)])
+        lv.append(ll_v())
+    y = m.finalize_v(X, labels, spc, n_acc, f_acc)
+    lu = [ll_u(y)]
+    for it in range(4):
+        m.m_step_u([m.e_step_u(X, labels, spc, y)])
+        lu.append(ll_u(y))
+    x = m.finalize_u(X, labels, spc, y)
+    ld = [ll_d(y, x)]
+    for it in range(4):
+        m.m_step_d([m.e_step_d(X, labels, spc, x, y, n_acc, f_acc)])
+        ld.append(ll_d(y, x))
+    o.info.update(V=lv, U=lu, D=ld)
+    for nm, tr in (("V", lv), ("U", lu), ("D", ld)):
+        for k in range(4):
+            o.claim("%s-phase-marginal-likelihood-not-decreasing-%d" % (nm, k), tr[k + 1] >= tr[k] - 1e-8 * (1 + abs(tr[k])))
+    o.claim("shapes", np.shape(m.U) == (CD, rU) and np.shape(m.V) == (CD, rV) and np.shape(m.D) == (CD,))
+    o.claim("finite", bool(np.all(np.isfinite(m.U)) and np.all(np.isfinite(m.V)) and np.all(np.isfinite(m.D))))
+    return o
+
+
+def job_observable(P):
+    P.probe_real("phase-observable", sc_phase_observable, [dict(seed=sd) for sd in (1, 2, 3, 4)], tries=1)
+
+
 def job_phase(P, phase, C, D, rU, rV, lname):
     sc = dict(v=sc_phase_v, u=sc_phase_u, d=sc_phase_d)[phase]
     r = dict(v=rV, u=rU, d=max(rU, rV))[phase]
@@ -240,7 +322,7 @@ def job_seq(P):
 
 
 def jobs(tier):
-    out = [("sequencing", "job_seq", {})]
+    out = [("sequencing", "job_seq", {}), ("observable", "job_observable", {})]
     for (C, D, rU, rV) in SIZES[tier]:
         for lname in LAYOUTS:
             for ph in "vud":
